@@ -276,3 +276,42 @@ def match_container(wl, rl):
             return False, None
         return True, wl[2]
     return False, None
+
+
+class Consume(Alphabet):
+    """How many bytes a header-skipping routine consumes from a reader: ('fixed', n) / ('var',)."""
+
+    def __init__(self, scope):
+        self.scope = set(scope)
+        self.side = "r"
+
+    def _kind(self, t):
+        c = t.get("callee", {})
+        d = strip_generics(c.get("def", ""))
+        tr = c.get("trait")
+        if tr == "std::io::Read" and d.endswith("::read_exact"):
+            return "read_exact"
+        if tr == "byteorder::ReadBytesExt":
+            m = d.split("::")[-1]
+            return {"read_u8": 1, "read_i8": 1, "read_u16": 2, "read_i16": 2, "read_u24": 3, "read_u32": 4, "read_i32": 4, "read_u64": 8}.get(m)
+        if tr == "std::io::Seek" or (tr == "std::io::Read" and d.endswith("::read")):
+            return "other"
+        return None
+
+    def is_event_callee(self, t):
+        return self._kind(t) is not None
+
+    def event(self, M, body, bb, t):
+        if body.name not in self.scope:
+            return None
+        k = self._kind(t)
+        if k is None:
+            return None
+        if isinstance(k, int):
+            return [(("fixed", k), None)]
+        if k == "read_exact":
+            n, _, _ = buffer_shape(body, t["args"][1])
+            if isinstance(n, int):
+                return [(("fixed", n), None)]
+            return [(("var",), None)]
+        return [(("other", strip_generics(t["callee"].get("def", "")).split("::")[-1]), None)]
